@@ -17,8 +17,7 @@ Scripts3 == [1..3 -> ScriptT \cup {S(<<ok, er>>, FALSE)}]
 Scripts4 == [1..4 -> {S(<<>>, FALSE), S(<<ok>>, FALSE)}] \cup {<<S(<<ok>>, TRUE), S(<<>>, TRUE), S(<<>>, FALSE), S(<<er>>, FALSE)>>}
 Scripts13 == [1..1 -> {S(<<ok, er, ok>>, FALSE), S(<<ok, er, ok>>, TRUE)}] \cup [1..2 -> {S(<<ok, er, ok>>, FALSE), S(<<ok>>, TRUE)}]
 \* export instances
-ScriptsX == { <<S(<<ok>>, FALSE), S(<<>>, TRUE)>>, <<S(<<er>>, FALSE)>> }
-ScriptsX2 == { <<S(<<ok>>, FALSE), S(<<er>>, TRUE)>> }
+ScriptsX == { <<S(<<ok>>, FALSE)>>, <<S(<<>>, TRUE)>>, <<S(<<>>, FALSE), S(<<>>, FALSE)>> }
 \* deep random behaviours
 ScriptsS == [1..3 -> ScriptQ] \cup [1..4 -> ScriptT]
 
@@ -28,5 +27,7 @@ AnyFaults(s) == {<<k, j>> : k \in {NoFault} \cup (0..Len(s)), j \in {NoFault} \c
 
 MCInit == \E s \in Scripts : \E f \in FaultChoices(s) : InitWith(s, f[1], f[2])
 Spec == MCInit /\ [][Next]_vars
+NextNoDone == MainStep \/ \E w \in Workers : WorkerStep(w)
+SimSpec == MCInit /\ [][NextNoDone]_vars
 FairSpec == MCInit /\ [][Next]_vars /\ Fairness
 =============================================================================
